@@ -371,8 +371,11 @@ fn reduce_chain_links(
     link_files.iter().try_for_each(|(k, v)| -> Result<()> {
         res.insert(
             k.clone(),
-            v.values()
-                .last()
+            // pick the representative deterministically (smallest key id):
+            // the iteration order of a HashMap differs from run to run
+            v.iter()
+                .min_by(|a, b| a.0.cmp(b.0))
+                .map(|(_, link)| link)
                 .ok_or_else(|| {
                     Error::VerificationFailure(format!(
                         "step {} does not have enough LinkMetadata.",
